@@ -164,6 +164,7 @@ class Producer(object):
         self._waitingByteCount = 0
         self._outstanding = []  # All currently outstanding requests
         self._batch_send_d = None  # Outstanding client request to send msgs
+        self.stopping = False  # Set by stop(): nothing more may be sent
 
         # Are we compressing messages, or just sending 'raw'?
         if codec is None:
@@ -346,6 +347,10 @@ class Producer(object):
         reqsByTopicPart = defaultdict(list)
         payloadsByTopicPart = defaultdict(list)
         deferredsByTopicPart = defaultdict(list)
+        if self.stopping:
+            # stop() interrupted the partition lookups: it fails every
+            # outstanding request itself and nothing may be sent anymore.
+            return
 
         # We now have a list of (succeeded/failed, partition/None) tuples
         # for the partition lookups we did on each message group, zipped with
@@ -445,7 +450,7 @@ class Producer(object):
         # We can be triggered by the LoopingCall, and have nothing to send...
         # Or, we've got SendRequest(s) to send, but are still processing the
         # previous batch...
-        if (not self._batch_reqs) or self._batch_send_d:
+        if (not self._batch_reqs) or self._batch_send_d or self.stopping:
             return
 
         # Save a local copy, and clear the global list & metrics
@@ -576,6 +581,10 @@ class Producer(object):
             Params:
             failed_payloads - list of (payload, failure) tuples
             """
+            if self.stopping:
+                # No retry once stop() has been called: it cancels every
+                # outstanding request itself.
+                return
             # Do we have retries left?
             if self._req_attempts >= self._max_attempts:
                 # No, no retries left, fail each failed_payload with its
